@@ -2,10 +2,10 @@
    Statements only; every proof is `exact <lemma of Proofs*.v>`.  K is an arbitrary commutative ring
    (`RingLaws K` = Coq's ring_theory), so the identities hold over the reals and are exact over Z, where the
    correspondence shards evaluate them. *)
-From Coq Require Import List Arith Bool ZArith.
+From Coq Require Import List Arith Bool ZArith Lia.
 Import ListNotations.
 Require Import C07.Model C07.ProofsBase C07.ProofsRouting C07.ProofsSizes C07.ProofsW C07.ProofsLeaf C07.ProofsToeplitz
-  C07.ProofsComposite C07.ProofsMain.
+  C07.ProofsComposite C07.ProofsMain C07.ProofsInduct.
 
 Section Statements.
 Context {K : RingOps} {Kth : RingLaws K}.
@@ -61,6 +61,26 @@ Proof. exact (coeff_CDiag fx t rg n). Qed.
 Theorem coefficient_Toeplitz fx t rg : wf (Toeplitz K t rg) -> coefficient_identity fx (Toeplitz K t rg).
 Proof. exact (coeff_Toeplitz fx t rg). Qed.
 
+(* the composite classes hand the transported weight to their children and add their own slots *)
+Theorem coefficient_Sum fx ops :
+  wf (Sum K ops) -> Forall (id_ok fx) ops -> Forall (coefficient_identity fx) ops -> coefficient_identity fx (Sum K ops).
+Proof. exact (coeff_Sum fx ops). Qed.
+Theorem coefficient_Matmul fx l r :
+  wf (Matmul K l r) -> id_ok fx l -> id_ok fx r -> coefficient_identity fx l -> coefficient_identity fx r ->
+  coefficient_identity fx (Matmul K l r).
+Proof. exact (coeff_Matmul fx l r). Qed.
+Theorem coefficient_ConstantMul fx b c rg :
+  wf (ConstantMul K b c rg) -> id_ok fx b -> coefficient_identity fx b -> coefficient_identity fx (ConstantMul K b c rg).
+Proof. exact (coeff_CMul fx b c rg). Qed.
+
+(* ---- main theorem: every nesting (any depth) of Dense, Diag, ConstantDiag, Identity, Toeplitz, Sum (AddedDiag, PsdSum,
+   SumKronecker-of-those ...), Matmul, ConstantMul — `lin` — satisfies the coefficient identity at every leaf, for every
+   requires_grad pattern.  wf: the shape side conditions the constructors establish; id_ok: no Identity node on the pinned
+   tree (its spurious slot shifts the tuple). *)
+Theorem coefficient_linear_fragment fx (e : OpExpr K) :
+  wf e -> lin e = true -> id_ok fx e -> coefficient_identity fx e.
+Proof. exact (coeff_lin fx e). Qed.
+
 End Statements.
 
 (* ---- the hypotheses are satisfiable *)
@@ -70,5 +90,16 @@ Example wf_toeplitz_ex : wf (Toeplitz ZK (of_flat ZK [3; 2] [1; 2; 3; 4; 5; 6]%Z
 Proof. simpl. split; [auto | repeat constructor]. Qed.
 Example csafe_toeplitz_ex : csafe pinned (Toeplitz ZK (of_flat ZK [3; 2] [1; 2; 3; 4; 5; 6]%Z) true) [2].
 Proof. simpl. unfold collapse_safe. simpl. auto. Qed.
+Definition nested_ex : OpExpr ZK :=
+  ConstantMul ZK (Matmul ZK (Sum ZK [Dense ZK (of_flat ZK [2; 2; 3] [1; 2; 3; 4; 5; 6; 7; 8; 9; 10; 11; 12]%Z) true;
+                                    Toeplitz ZK (of_flat ZK [2; 3] [1; 2; 3; 4; 5; 6]%Z) false])
+                            (Diag ZK (of_flat ZK [2; 3] [1; 2; 3; 4; 5; 6]%Z) true))
+                 (of_flat ZK [3] [2; 3; 4]%Z) true.
+Example nested_ex_wf : wf nested_ex.
+Proof. cbn. repeat split; auto; try lia. all: destruct H as [<-|[<-|[]]]; reflexivity. Qed.
+Example nested_ex_lin : lin nested_ex = true. Proof. reflexivity. Qed.
+Example nested_ex_id : id_ok pinned nested_ex. Proof. right. reflexivity. Qed.
+Example nested_ex_csafe : csafe pinned nested_ex [3].
+Proof. cbn. repeat split; auto. unfold collapse_safe. cbn. right. left. lia. Qed.
 Example no_identity_ex : no_identity (Sum ZK [Dense ZK (of_flat ZK [2; 2] [1; 2; 3; 4]%Z) true; Diag ZK (of_flat ZK [2] [1; 2]%Z) false]) = true.
 Proof. reflexivity. Qed.
